@@ -9,7 +9,7 @@
    Print Assumptions, and the statements that are not proved (Definition C05_full_...). *)
 From Coq Require Import Permutation.
 From SV Require Import Base.Prelude Model.Mailbox Proof.MailboxFacts Proof.MailboxProof Proof.MailboxInOrder
-  Proof.MailboxTermination Model.MailboxDivider Proof.MailboxDividerProof.
+  Proof.MailboxTermination Model.MailboxDivider Proof.MailboxDividerProof Proof.MailboxNumbered.
 Local Open Scope nat_scope.
 
 (* Every subscriber's delivered sequence is a prefix of the sent messages in number order with futures
@@ -137,11 +137,30 @@ Theorem C05_divider_no_lost_wakeup :
 Proof. exact divider_no_lost_wakeup. Qed.
 Print Assumptions C05_divider_no_lost_wakeup.
 
+(* Explicit numbering (send(msg, msg_number=k)), the safety half: for every duplicate-free numbering with
+   numbers below the message count (= every permutation), sent in any order, with any capacity, mode,
+   subscribers, kill and schedule: each subscriber's delivered sequence is a prefix of the messages ORDERED
+   BY NUMBER (expected items = vals of the messages numbered 0, 1, ..., N-1), and a subscriber that
+   finished normally has received all of them.  The liveness half is C05_full_mailbox_explicit_numbering. *)
+Theorem C05_mailbox_explicit_numbering_safe_partial :
+  forall (cfg : config) (items : list (nat * msg)) (nfut : nat),
+    NoDup (map fst items) ->
+    (forall k m, In (k, m) items -> k < length items) ->
+    (forall k m, In (k, m) items -> is_stop m = false) ->
+    forall (drives : list bool) (killer : option bool) (sched : list tid) (st : state),
+      run cfg (init cfg drives (numbered_source items) killer nfut) sched = Some st ->
+      forall i r, nth_error (rds st) i = Some r ->
+        is_prefix (r_log r) (expected items) /\ (r_pc r = RDone -> r_log r = expected items).
+Proof. exact numbered_delivery_safe. Qed.
+Print Assumptions C05_mailbox_explicit_numbering_safe_partial.
+
 (* ---------------- stated, not proved ---------------- *)
 
-(* Explicit numbering: delivery safety and deadlock freedom when the source numbers its messages by a
-   permutation that fits the capacity (model: same LTS with `Some k` numbers; covered by the
-   correspondence check over all permutations of up to 4 messages, not yet by a proof). *)
+(* Explicit numbering, the liveness half: deadlock freedom (and hence complete delivery) when the
+   numbering fits the capacity -- before every send, fewer than `capacity` already-sent messages lie above
+   the lowest unsent number (implied by "the capacity exceeds the largest displacement").  Same LTS with
+   `Some k` numbers; checked by the correspondence over all permutations of up to 4 messages (the model's
+   complete state graphs have no deadlock state exactly when the numbering fits), not by a proof. *)
 Definition fits (cap : option nat) (nums : list nat) : Prop :=
   match cap with
   | None => True
@@ -159,7 +178,7 @@ Definition C05_full_mailbox_explicit_numbering : Prop :=
       drives <> [] ->
       (forall c, c_cap cfg = Some c -> 1 <= c) ->
       (forall k v, In (Fut k v) (map snd items) -> k < nfut) ->
-      run cfg (init cfg drives (map (fun it => (Some (fst it), snd it)) items) None nfut) sched = Some st ->
+      run cfg (init cfg drives (numbered_source items) None nfut) sched = Some st ->
       ((exists t, enabled st t = true) \/ all_terminal st = true) /\
       (all_terminal st = true -> forall i r, nth_error (rds st) i = Some r -> r_pc r = RDone).
 
